@@ -270,7 +270,7 @@ fn run_case<'a>(ctx: &'a Ctx, case: u64, acc: &'a mut Acc) -> CaseFut<'a> {
             let affected: Vec<usize> = match &op {
                 Op::Pull { dst, .. } | Op::Pull2 { dst, .. } => vec![*dst],
                 Op::PullBoth { a, b } => vec![*a, *b],
-                Op::Create { peer, .. } | Op::CreateNested { peer } | Op::Update { peer, .. } | Op::SetPet { peer, .. } | Op::ClearPet { peer, .. } | Op::AddParent { peer, .. } | Op::ClearParents { peer, .. } | Op::DeleteNode { peer, .. } | Op::DeleteRef { peer, .. } | Op::Move { peer, .. } | Op::StreamCreate { peer, .. } => vec![*peer],
+                Op::Create { peer, .. } | Op::CreateNested { peer } | Op::Update { peer, .. } | Op::UpdateThroughParent { peer, .. } | Op::SetPet { peer, .. } | Op::ClearPet { peer, .. } | Op::AddParent { peer, .. } | Op::ClearParents { peer, .. } | Op::DeleteNode { peer, .. } | Op::DeleteRef { peer, .. } | Op::Move { peer, .. } | Op::StreamCreate { peer, .. } => vec![*peer],
                 _ => vec![],
             };
             let mut befores = Vec::new();
